@@ -102,10 +102,22 @@ func mergeYaml(e any, o any, p tree.Path) (any, error) {
 	}
 }
 
+// namedEntries tells whether the keys of the mapping at p are names chosen by the user (services, resources, the
+// networks and dependencies of a service): an entry whose name starts with `x-` is merged like any other there, it is
+// not an extension to replace wholesale
+func namedEntries(p tree.Path) bool {
+	for _, pattern := range []tree.Path{"services", "networks", "volumes", "secrets", "configs", "services.*.networks", "services.*.depends_on"} {
+		if p.Matches(pattern) {
+			return true
+		}
+	}
+	return false
+}
+
 func mergeMappings(mapping map[string]any, other map[string]any, p tree.Path) (map[string]any, error) {
 	for k, v := range other {
 		e, ok := mapping[k]
-		if !ok || strings.HasPrefix(k, "x-") {
+		if !ok || (strings.HasPrefix(k, "x-") && !namedEntries(p)) {
 			mapping[k] = v
 			continue
 		}
